@@ -236,6 +236,13 @@ def _search(rec, ctx):
             for v in PUNCT:
                 check(rec, {"src": "".join(toks[:i] + [v, " "] + toks[i:]), "stream": "diagnostic-neighbourhood"})
 
+    # conversion names of f-string fields: every string over {s, r, a, z} up to length 3, plus a few words
+    import itertools
+
+    for name in ctx.shard(["".join(t) for n in (1, 2, 3) for t in itertools.product("sraz", repeat=n)] + ["repr", "R", "1", "_", "é", "if"]):
+        for tmpl in ("f'{x!N}'", "f'{x!N:>4}'", "f'{x=!N}'", "f'{x:{y!N}}'", "f'''{x!N\n}'''", "f'{x! N}'"):
+            check(rec, {"src": tmpl.replace("N", name), "stream": "fstring-conversion-names"})
+
     # version-gated syntax (valid, broken and mutated) under every py_version and verbose
     from .c15 import GATED
 
